@@ -822,6 +822,23 @@ class Extractor {
       if (!V->getInit()->isValueDependent() && V->getInit()->EvaluateAsInt(R, Ctx))
         g["const_value"] = (int64_t)R.Val.getInt().getExtValue();
     }
+    if (V->hasInit() && (V->getType().isConstQualified() || V->isConstexpr()) && !V->getType()->isIntegralOrEnumerationType()) {
+      // a constant initialised from exactly one string literal (const char* or std::string)
+      std::vector<const StringLiteral *> lits;
+      std::vector<const Stmt *> work{V->getInit()};
+      unsigned others = 0;
+      while (!work.empty()) {
+        const Stmt *S = work.back();
+        work.pop_back();
+        if (!S) continue;
+        if (auto *SL = dyn_cast<StringLiteral>(S)) { lits.push_back(SL); continue; }
+        if (isa<CallExpr>(S) && !isa<CXXOperatorCallExpr>(S)) others++;
+        if (isa<BinaryOperator>(S) || isa<CXXOperatorCallExpr>(S) || isa<DeclRefExpr>(S)) others++;
+        for (const Stmt *C : S->children()) work.push_back(C);
+      }
+      if (lits.size() == 1 && others == 0 && lits[0]->getCharByteWidth() == 1)
+        g["const_str"] = lits[0]->getString().str();
+    }
     globals.push_back(std::move(g));
   }
 
